@@ -105,10 +105,15 @@ def h_output(T, L, P, thorough, only_axes=None, period_times=None):
         cells = list(np.ndindex(*shape))
         avg_thresholds = None
         use_ratio = False
+        use_hit = False
         if axname == "location+thresholds":
             # a threshold metric along a data axis: the mean over the intervals is reported
             axname = "location"
-            m = metric.Within()
+            # within (always defined), or the hit rate, which is undefined for a threshold no observation exceeds:
+            # the mean over the thresholds is then undefined too (not the mean of the others)
+            # (decided for one output variant only: every event count forks per cell and threshold)
+            use_hit = (not acc and not to_file and fmt == "csv" and legend is None) and bool(S.choose("threshold-metric", 2))
+            m = metric.Hit() if use_hit else metric.Within()
             pl = out.Standard(m)
             t1, t2 = S.real("r1", lo=0, hi=50), S.real("r2", lo=0, hi=50)
             pl.thresholds = S.vector([t1, t2])
@@ -175,6 +180,13 @@ def h_output(T, L, P, thorough, only_axes=None, period_times=None):
                 return S.div(S.count(x < k for x in d) * 100.0, len(d))     # within: default bin type 'below'
             sel = [c for c in cells if kind == "all" or (kind == "loc" and c[2] == k) or (kind == "time" and c[0] == k)
                    or (kind == "lead" and c[1] == k) or (kind == "times" and c[0] in k[1])]
+            if avg_thresholds is not None and use_hit:
+                per = []
+                for t in avg_thresholds:
+                    n_ev = S.count(o[c] > t for c in sel)
+                    n_hit = S.count(S.and_(o[c] > t, fc[c] > t) for c in sel)
+                    per.append(S.ite(n_ev == 0, float("nan"), S.div(n_hit, n_ev)))
+                return S.div(per[0] + per[1], 2.0)
             if avg_thresholds is not None:
                 d = [S.abs(o[c] - fc[c]) for c in sel]
                 per = [S.div(S.count(x < t for x in d) * 100.0, len(d)) for t in avg_thresholds]
@@ -194,7 +206,7 @@ def h_output(T, L, P, thorough, only_axes=None, period_times=None):
         # ---- placement, for every input of the path (symbolic)
         x, y, xname, ynames, descs = pl._get_x_y(D, pl.axis)
         S.prove("one-row-per-slice", len(x) == len(slices) and tuple(y.shape) == (len(slices), 2), detail=axname)
-        tag = "%s%s%s%s" % (axname, "/acc" if acc else "", "/mean-over-thresholds" if avg_thresholds else "", "/ratio" if use_ratio else "")
+        tag = "%s%s%s%s" % (axname, "/acc" if acc else "", ("/mean-over-thresholds" + ("/hit" if use_hit else "")) if avg_thresholds else "", "/ratio" if use_ratio else "")
         for i in range(len(slices)):
             for f in range(2):
                 S.prove("score-in-its-row-and-column", S.same(y[i, f], want[i][f]), twin=S.same(y[i, f], want[i][f] + 1), detail=tag)
